@@ -71,15 +71,23 @@ def run_case(case, want_trace=False):
         peers = [net.add_raw("p%d" % i, ip, port, handler=peer_handler) for i, (ip, port) in enumerate(PEERS)]
         arrivals = []  # (t_arrival, peer index, mid, type, delivery record filled later)
         reqs = case["requests"]
+        # earlier non-request traffic of the same peer under the same message ID, more than EXCHANGE_LIFETIME
+        # before the request: a ping or a stray confirmable response (both answered with RST).  It is not a
+        # request, and even if it were remembered it would be forgotten by then.
+        T0 = 1.0 + max([rq["pre"]["dt"] for rq in reqs if rq.get("pre")] + [0.0])
         for ri, rq in enumerate(reqs):
             typ = R.CON if rq["con"] else R.NON
             tok = bytes([0xA0 + ri])
             base = R.msg(typ, R.GET, rq["mid"], tok, [(R.O_URI_PATH, rq["handler"])])
+            if rq.get("pre"):
+                labels.add("earlier-" + rq["pre"]["kind"] + "-with-same-mid")
+                pre = R.msg(R.CON, 0, rq["mid"]) if rq["pre"]["kind"] == "ping" else R.msg(R.CON, R.CONTENT, rq["mid"], b"\x77\x66", [], b"stray")
+                net.at(T0 + rq["t"] - rq["pre"]["dt"], peers[rq["peer"]].send, A, pre)
             for ci, off in enumerate(rq["copies"]):
                 data = base
                 if ci and rq.get("alter") == ci:
                     data = R.msg(typ, R.POST, rq["mid"], tok + b"\x01", [(R.O_URI_PATH, rq["handler"])], b"x")
-                net.at(1.0 + rq["t"] + off, peers[rq["peer"]].send, A, data)
+                net.at(T0 + rq["t"] + off, peers[rq["peer"]].send, A, data)
 
         delivered = []
 
@@ -88,7 +96,7 @@ def run_case(case, want_trace=False):
                 delivered.append(d)
 
         net.after_delivery = after
-        horizon = 1.0 + max(rq["t"] + max(rq["copies"]) for rq in reqs) + 260.0
+        horizon = T0 + max(rq["t"] + max(rq["copies"]) for rq in reqs) + 260.0
         net.run_until(horizon)
 
         # ------------------------------ oracle ------------------------------------
@@ -189,6 +197,8 @@ def _case(draw):
             "handler": draw(st.sampled_from(HANDLERS)),
             "copies": offs,
         }
+        if draw(st.integers(0, 5)) == 0:
+            rq["pre"] = {"kind": draw(st.sampled_from(["ping", "stray-response"])), "dt": draw(st.sampled_from([248.0, 300.0, 1000.0]))}
         if len(offs) > 1 and draw(st.integers(0, 5)) == 0:
             rq["alter"] = draw(st.integers(1, len(offs) - 1))
         reqs.append(rq)
